@@ -111,6 +111,15 @@ func (r *Runner) RunJobs(jobs []Job) []JobResult {
 					st = NewStore()
 				}
 				n++
+				// incremental solvers grow with push/pop: restart them now and then
+				if sol.Queries > 4000 {
+					sol.Close()
+					sol, err = NewSolver(r.solver, r.timeoutMs)
+					if err != nil {
+						res[i] = JobResult{Job: jobs[i], Err: err.Error()}
+						continue
+					}
+				}
 				if sol.dead {
 					sol.Close()
 					sol, err = NewSolver(r.solver, r.timeoutMs)
